@@ -9,6 +9,7 @@ import (
 	"go/format"
 	"go/parser"
 	"go/printer"
+	"go/scanner"
 	"go/token"
 	"sort"
 	"strings"
@@ -183,6 +184,11 @@ func (c *fmtCase) CanonModel(m string) string {
 	return "result=ok file=" + hx(out)
 }
 
+// declStrings: the top-level declarations in order (kind and declared names; grouped declarations
+// flattened, because gofumpt groups and ungroups adjacent single declarations) followed by the text of
+// every comment in order (the generator's header comment aside).  gofumpt's own rewrites inside
+// declarations (`var x = 1` to `x := 1`, octal literals, …) are formatting and are not compared here;
+// the byte-exact comparison is the one with the model's source run through the same pipeline.
 func declStrings(src string) ([]string, error) {
 	fset := token.NewFileSet()
 	f, err := parser.ParseFile(fset, "x.go", src, parser.ParseComments)
@@ -191,21 +197,39 @@ func declStrings(src string) ([]string, error) {
 	}
 	var out []string
 	for _, d := range f.Decls {
-		if gd, ok := d.(*ast.GenDecl); ok && gd.Tok == token.IMPORT {
-			continue
-		}
-		// flatten grouped declarations: gofumpt may group or ungroup adjacent single declarations
-		if gd, ok := d.(*ast.GenDecl); ok && gd.Tok != token.IMPORT {
-			for _, sp := range gd.Specs {
-				var b bytes.Buffer
-				printer.Fprint(&b, fset, sp)
-				out = append(out, gd.Tok.String()+" "+normalizeSpace(b.String()))
+		switch x := d.(type) {
+		case *ast.GenDecl:
+			if x.Tok == token.IMPORT {
+				continue
 			}
+			for _, sp := range x.Specs {
+				switch y := sp.(type) {
+				case *ast.ValueSpec:
+					var ns []string
+					for _, n := range y.Names {
+						ns = append(ns, n.Name)
+					}
+					out = append(out, x.Tok.String()+" "+strings.Join(ns, ","))
+				case *ast.TypeSpec:
+					var b bytes.Buffer
+					printer.Fprint(&b, token.NewFileSet(), y.Type)
+					out = append(out, "type "+y.Name.Name+" "+normalizeSpace(b.String()))
+				}
+			}
+		case *ast.FuncDecl:
+			var b bytes.Buffer
+			cp := *x
+			cp.Body, cp.Doc = nil, nil
+			printer.Fprint(&b, token.NewFileSet(), &cp)
+			out = append(out, normalizeSpace(b.String()))
+		}
+	}
+	for _, cg := range f.Comments {
+		t := cg.Text()
+		if strings.Contains(t, "GENERATED BY gengo:") && cg.Pos() < f.Package {
 			continue
 		}
-		var b bytes.Buffer
-		printer.Fprint(&b, fset, d)
-		out = append(out, normalizeSpace(b.String()))
+		out = append(out, "comment "+normalizeSpace(t))
 	}
 	return out, nil
 }
@@ -215,7 +239,7 @@ func normalizeSpace(s string) string { return strings.Join(strings.Fields(s), " 
 // failure classes used as known-finding keys
 const (
 	clsGoBuild = "a //go:build (or // +build) line inside the rendered body is hoisted above the header comment"
-	clsVarJoin = "gofumpt second pass groups adjacent single var declarations (gofumpt is not idempotent here)"
+	clsVarJoin = "a second gofumpt pass only regroups adjacent var declarations or inserts an empty line between adjacent declaration groups (gofumpt is not idempotent here)"
 )
 
 type fmtVerdict struct{ class, msg string }
@@ -290,16 +314,39 @@ func (c *fmtCase) judge() fmtVerdict {
 		return fmtVerdict{"", "gofumpt fails on the file: " + err.Error()}
 	}
 	if string(g2) != txt {
-		// classify: does the second pass only regroup var declarations?
-		d1, e1 := declStrings(txt)
-		d2, e2 := declStrings(string(g2))
+		// classify: does the second pass change nothing but the grouping / spacing of declarations?
 		cls := ""
-		if e1 == nil && e2 == nil && strings.Join(d1, "\n") == strings.Join(d2, "\n") && strings.Count(string(g2), "var (") > strings.Count(txt, "var (") {
+		if layoutTokens(txt) == layoutTokens(string(g2)) {
 			cls = clsVarJoin
 		}
 		return fmtVerdict{cls, "the file is not a fixed point of gofumpt for go" + c.goVersion() + ":\n" + firstDiff(txt, string(g2))}
 	}
 	return fmtVerdict{}
+}
+
+// layoutTokens: the token stream without what regrouping and spacing change (var keywords, parentheses,
+// automatic semicolons)
+func layoutTokens(src string) string {
+	var sc scanner.Scanner
+	fset := token.NewFileSet()
+	file := fset.AddFile("x.go", fset.Base(), len(src))
+	sc.Init(file, []byte(src), nil, scanner.ScanComments)
+	var b strings.Builder
+	for {
+		_, tok, lit := sc.Scan()
+		if tok == token.EOF {
+			break
+		}
+		switch tok {
+		case token.VAR, token.LPAREN, token.RPAREN, token.SEMICOLON:
+			continue
+		}
+		if lit == "" {
+			lit = tok.String()
+		}
+		b.WriteString(lit + "\x00")
+	}
+	return b.String()
 }
 
 func firstDiff(a, b string) string {
